@@ -359,6 +359,8 @@ type Runner struct {
 	Primary   string
 	Fallback  []string
 	Cross     bool // thorough: confirm unsat with a second solver
+	Tier      string
+	Sampled   []map[string]interface{}
 	mu        sync.Mutex
 	SolverMs  map[string]int64
 	Calls     map[string]int
@@ -410,6 +412,17 @@ func (r *Runner) Run(scripts []*Script) []*ObResult {
 		nobs := len(sc.obligations())
 		if nobs == 0 {
 			continue
+		}
+		if r.Tier != "thorough" && sc.QuickStride > 1 && len(insts) > sc.QuickStride {
+			var keep [][]int
+			off := seedFromEnv() % sc.QuickStride
+			for i, in := range insts {
+				if i%sc.QuickStride == off || i == 0 || i == len(insts)-1 {
+					keep = append(keep, in)
+				}
+			}
+			r.Sampled = append(r.Sampled, map[string]interface{}{"function": sc.FuncName, "split_instances_checked": len(keep), "split_instances_total": len(insts), "stride": sc.QuickStride})
+			insts = keep
 		}
 		// chunk instances so that every worker has something to do
 		per := 1
